@@ -248,7 +248,7 @@ theorem order_keys_written :
       cs.length == 4 &&
       (["storeOrderTX", "storeOrderMinUnitsMatchTX", "storeOrderTlvTX"].all fun k => cs.contains (k, [])) &&
       (cs.all fun (k, g) => k != "storeOrderMinNoderTierTX" ||
-        [[], ["newOrder.(*order.Bid); ok"], ["o.(*order.Bid); ok"]].contains g)) = true := by
+        [[], ["is-bid"]].contains g)) = true := by
   decide
 
 /-- (R) transaction discipline, over the regenerated call table of clientdb's `*DB` methods: no decode call
